@@ -1259,6 +1259,12 @@ func (g *g17) header(density int) map[string]any {
 	return h
 }
 
+// every legal way to declare form media types in consumes (both may be listed, in either order)
+var c17FormConsumes = [][]any{
+	{"multipart/form-data"}, {"application/x-www-form-urlencoded"},
+	{"multipart/form-data", "application/x-www-form-urlencoded"}, {"application/x-www-form-urlencoded", "multipart/form-data"},
+}
+
 var c17Produces = [][]any{nil, nil, {"application/json"}, {"application/xml"}, {"application/json", "application/xml"}, {"text/plain"}}
 
 func (g *g17) response(density int, sharedResps []string) map[string]any {
@@ -1495,6 +1501,34 @@ func genC17Exhaustive(emit func(hx.Case)) {
 		fd := c17Doc(map[string]any{"/x": map[string]any{"post": op2}})
 		fd["parameters"] = map[string]any{"sf": fp}
 		emit(hx.Case{"doc": fd})
+	}
+	// form parameters × every legal declaration of the form media types (one, the other, both in either order; at the
+	// operation or at the document): the request body then has one entry per media type over one shared form schema,
+	// and the way back ranges over them
+	for _, cons := range c17FormConsumes {
+		for _, site := range []string{"op", "doc"} {
+			for _, ps := range [][]any{
+				{map[string]any{"name": "a", "in": "formData", "type": "string"}},
+				{map[string]any{"name": "a", "in": "formData", "type": "string", "required": true}, map[string]any{"name": "b", "in": "formData", "type": "integer", "format": "int32", "minimum": 1}},
+				{map[string]any{"name": "up", "in": "formData", "type": "file", "required": true}, map[string]any{"name": "note", "in": "formData", "type": "string", "maxLength": 8}},
+				{map[string]any{"name": "l", "in": "formData", "type": "array", "items": map[string]any{"type": "string", "enum": []any{"x", "y"}}, "minItems": 1}},
+				{map[string]any{"name": "l", "in": "formData", "type": "array", "items": map[string]any{"type": "string", "x-nullable": true}}},
+				{map[string]any{"name": "q", "in": "query", "type": "string"}, map[string]any{"name": "a", "in": "formData", "type": "boolean", "default": true}, map[string]any{"name": "b", "in": "formData", "type": "number"}, map[string]any{"name": "c", "in": "formData", "type": "string", "pattern": "^[a-z]+$"}},
+				{map[string]any{"$ref": "#/parameters/sf"}, map[string]any{"name": "a", "in": "formData", "type": "string"}},
+			} {
+				op := c17Op("p", ps, nil)
+				d := c17Doc(map[string]any{"/x": map[string]any{"post": op}})
+				if site == "op" {
+					op["consumes"] = cons
+				} else {
+					d["consumes"] = cons
+				}
+				if _, isRef := ps[0].(map[string]any)["$ref"]; isRef {
+					d["parameters"] = map[string]any{"sf": map[string]any{"name": "sf", "in": "formData", "type": "file"}}
+				}
+				emit(hx.Case{"doc": d})
+			}
+		}
 	}
 	// shared body parameter
 	for _, req := range []bool{false, true} {
@@ -1934,7 +1968,7 @@ func (g *g17) randomDoc() map[string]any {
 						params = append(params, map[string]any{"$ref": "#/parameters/" + s})
 					}
 				}
-				op["consumes"] = g.pick([]any{"multipart/form-data"}, []any{"application/x-www-form-urlencoded"})
+				op["consumes"] = hx.Pick(r, c17FormConsumes)
 			}
 			resps := map[string]any{}
 			for x, kr := 0, 1+r.Intn(3); x < kr; x++ {
